@@ -68,6 +68,7 @@ func scenarios(thorough bool) []Scenario {
 	fns := pure.Registry()
 	ins := pure.Inputs()
 	var out []Scenario
+	pairSeen := map[[2]int]int{}
 	for _, in := range ins {
 		for i := range fns {
 			if !fns[i].Applies(in) {
@@ -76,6 +77,13 @@ func scenarios(thorough bool) []Scenario {
 			for j := i; j < len(fns); j++ {
 				if !fns[j].Applies(in) {
 					continue
+				}
+				// quick: a pair of different functions on at most 6 of their shared inputs
+				if !thorough && j != i {
+					if pairSeen[[2]int{i, j}] >= 6 {
+						continue
+					}
+					pairSeen[[2]int{i, j}]++
 				}
 				out = append(out, Scenario{Fns: []string{fns[i].Name, fns[j].Name}, Inputs: []string{in.Name, in.Name}})
 			}
@@ -145,13 +153,39 @@ func prepare(sc Scenario) (*prepared, error) {
 	return p, nil
 }
 
+// yieldFn is the scheduler's yield while a scheduled run is in progress (nil otherwise).
+var yieldFn func(string)
+
+func installAll(f func(string)) { installHook(f); yieldFn = f }
+
+// callKeeping performs one call the way a caller that KEEPS the result does: the live result is
+// rendered on return, the thread reaches a scheduling point (so other threads' calls may run in
+// between), and the retained result is rendered again. A result that aliases hidden shared
+// state shows up as a difference. The call works on a shallow copy of the input (same storage,
+// private list of retained results) because threads share inputs.
+func callKeeping(f *pure.Fn, in *pure.Input) string {
+	local := *in
+	local.ResetKept()
+	res := f.Call(&local)
+	before := local.Rerender()
+	if y := yieldFn; y != nil {
+		y("result-retained:" + f.Name)
+	} else {
+		runtime.Gosched()
+	}
+	if after := local.Rerender(); after != before {
+		return "retained result changed after the call returned: " + clip(before) + " -> " + clip(after)
+	}
+	return res
+}
+
 func safeCall(f *pure.Fn, in *pure.Input) (res string) {
 	defer func() {
 		if r := recover(); r != nil {
 			res = fmt.Sprintf("panic: %v", r)
 		}
 	}()
-	return f.Call(in)
+	return callKeeping(f, in)
 }
 
 // check compares the results of one concurrent run with the solo results.
@@ -244,9 +278,9 @@ func runSched(tier, outPath string) {
 			bodies := make([]func(), len(p.fns))
 			for k := range p.fns {
 				k := k
-				bodies[k] = func() { results[k] = p.fns[k].Call(p.ins[k]) }
+				bodies[k] = func() { results[k] = callKeeping(p.fns[k], p.ins[k]) }
 			}
-			s, panics := sched17.Run(m, 4000, installHook, bodies)
+			s, panics := sched17.Run(m, 4000, installAll, bodies)
 			out.Schedules++
 			out.Points += int64(s.Points)
 			if s.Points > out.MaxPoints {
@@ -410,9 +444,9 @@ func replay(path string) {
 		bodies := make([]func(), len(p.fns))
 		for k := range p.fns {
 			k := k
-			bodies[k] = func() { results[k] = p.fns[k].Call(p.ins[k]) }
+			bodies[k] = func() { results[k] = callKeeping(p.fns[k], p.ins[k]) }
 		}
-		_, panics := sched17.Run(m, 4000, installHook, bodies)
+		_, panics := sched17.Run(m, 4000, installAll, bodies)
 		for k, pv := range panics {
 			if pv != nil {
 				results[k] = fmt.Sprintf("panic: %v", pv)
